@@ -4,26 +4,32 @@ From FP Require Import Machine SrcConsts Pow10 WideDiv Rounding Arith Unops Roun
 From FP Require Import AddSubFacts UnopsFacts.
 From FP Require Import GenTieTac GenTiePow.
 
+(* generic: unfold both sides, rewrite the powers-of-ten kernels, split step by step *)
+Ltac un_tie := unfold_helpers_dec; to_model_pow; unfold DZERO;
+  first [ solve [rf] | solve [repeat (cbv beta iota zeta; cbn [bind]; try to_model_pow; tie2_step); cbn [bind negb andb orb]; try fin] ].
+
 Lemma tie_neg pf d : g_Neg_neg pf d = dec_neg pf d.
-Proof. reflexivity. Qed.
+Proof. unfold g_Neg_neg, dec_neg. un_tie. Qed.
 Lemma tie_abs pf d : g_Decimal_abs pf d = dec_abs pf d.
-Proof. reflexivity. Qed.
+Proof. unfold g_Decimal_abs, dec_abs, g_Decimal_coefficient. un_tie. Qed.
 Lemma tie_trunc pf d : g_Decimal_trunc pf d = dec_trunc d.
-Proof. reflexivity. Qed.
+Proof. unfold g_Decimal_trunc, dec_trunc. un_tie. Qed.
 Lemma tie_fract pf d : g_Decimal_fract pf d = dec_fract d.
-Proof. reflexivity. Qed.
+Proof. unfold g_Decimal_fract, dec_fract. un_tie. Qed.
 Lemma tie_div_floor pf a b : g_DivModInt_div_floor pf a b = div_floor pf a b.
-Proof. unfold g_DivModInt_div_floor, div_floor, g_DivModInt_divmod. tie. Qed.
+Proof. unfold g_DivModInt_div_floor, div_floor, g_DivModInt_divmod. un_tie. Qed.
 Lemma tie_div_ceil pf a b : g_DivModInt_div_ceil pf a b = div_ceil pf a b.
-Proof. unfold g_DivModInt_div_ceil, div_ceil, g_DivModInt_divmod. tie. Qed.
+Proof. unfold g_DivModInt_div_ceil, div_ceil, g_DivModInt_divmod. un_tie. Qed.
 Lemma tie_floor pf d : g_Decimal_floor pf d = dec_floor pf d.
 Proof.
-  unfold g_Decimal_floor, dec_floor. destruct (nfd d =? 0); [reflexivity|]. to_model_pow.
+  unfold g_Decimal_floor, dec_floor. unfold_helpers_dec. to_model_pow.
+  destruct (Z.eqb_spec (nfd d) 0); cbv beta iota zeta; cbn [negb bind]; [reflexivity|].
   dres (ten_pow (nfd d)) as t. rewrite tie_div_floor. reflexivity.
 Qed.
 Lemma tie_ceil pf d : g_Decimal_ceil pf d = dec_ceil pf d.
 Proof.
-  unfold g_Decimal_ceil, dec_ceil. destruct (nfd d =? 0); [reflexivity|]. to_model_pow.
+  unfold g_Decimal_ceil, dec_ceil. unfold_helpers_dec. to_model_pow.
+  destruct (Z.eqb_spec (nfd d) 0); cbv beta iota zeta; cbn [negb bind]; [reflexivity|].
   dres (ten_pow (nfd d)) as t. rewrite tie_div_ceil. reflexivity.
 Qed.
 
